@@ -104,6 +104,10 @@ def insOpt (x : Option Nat) : List (Option Nat) → List (Option Nat)
       | _, _ => false
     if lt then x :: a :: as else a :: insOpt x as
 
+def insTempo (x : Int × Nat) : List (Int × Nat) → List (Int × Nat)
+  | [] => [x]
+  | a :: as => if x.1 < a.1 || (x.1 == a.1 && x.2 < a.2) then x :: a :: as else a :: insTempo x as
+
 def handle (ts : List String) : String :=
   match ts with
   | "exp" :: rest =>
@@ -114,7 +118,7 @@ def handle (ts : List String) : String :=
   | "imp" :: rest =>
     orErr <| (run (do let mode ← nat; let trs ← list pTrack; pure (mode, trs)) rest).bind fun (mode, trs) =>
       (loadScoreMidi mode trs).map fun r =>
-        s!"{fmtList fmtPartOut r.parts}|{fmtList (fun t => fmtTuple [fmtInt t.1, fmtNat t.2]) r.tempos}"
+        s!"{fmtList fmtPartOut r.parts}|{fmtList (fun t => fmtTuple [fmtInt t.1, fmtNat t.2]) (r.tempos.foldr insTempo [])}"
   | "perf" :: rest =>
     orErr <| (run (list pTrack) rest).map fun trs =>
       fmtList (fun tr => fmtList fmtRec ((pairTrack tr).foldr insRec [])) trs
